@@ -45,10 +45,13 @@ def run_property(pid, tier, repo, work, quiet=False):
         items = [i for i in out.items if use.get("filter") is None or use["filter"](i)]
         definite = [i for i in items if i.verdict != UNDECIDED]
         bad = [i for i in items if i.verdict == VIOLATES]
-        floor = use.get("floor", 1)
+        # props.py records the number of instances decided on the triaged tree; a quarter of them may legitimately
+        # disappear through refactoring (helpers extracted, sites merged) before the check fails closed
+        counted_floor = use.get("floor", 1)
+        floor = counted_floor if counted_floor <= 2 else counted_floor - max(1, counted_floor // 4)
         rep = {"rule": use["rule"], "clause": use.get("clause", ""), "instances": len(items),
                "decided": len(definite), "holds": len([i for i in items if i.verdict == HOLDS]),
-               "violates": len(bad), "undecided": len(items) - len(definite), "floor": floor}
+               "violates": len(bad), "undecided": len(items) - len(definite), "floor": floor, "counted_on_triaged_tree": counted_floor}
         rule_reports.append(rep)
         all_instances.extend(items)
         for i in bad:
